@@ -49,7 +49,10 @@ func hostileReq(r *Rng, pats []*Pattern) Req {
 		q.Path = GenPaths(r, pats, 1)[0]
 	}
 	if r.Pct(40) {
-		q.Hdr = map[string]string{"Accept": pick(r, []string{"", "application/json; version=1", "application/json;version=", ";;;", "a/b; version=\"", "application/json; version=2; version=3", "\xff", "text/html, */*"}),
+		q.Hdr = map[string]string{
+			"Access-Control-Request-Method":  pick(r, []string{"", "GET", "POST", "get", "\xff", "BOGUS", "OPTIONS"}),
+			"Access-Control-Request-Headers": pick(r, []string{"", "content-type", "Content-Type, X-Token", ",,,", " x-token ,", "*", "\x00", strings.Repeat("a,", 500)}),
+			"Accept": pick(r, []string{"", "application/json; version=1", "application/json;version=", ";;;", "a/b; version=\"", "application/json; version=2; version=3", "\xff", "text/html, */*"}),
 			"Origin": pick(r, []string{"", "https://a.com", "null", "\x00"})}
 	}
 	return q
@@ -61,6 +64,7 @@ func genC05(r *Rng, idx int, tier string) *World {
 	if r.Pct(35) {
 		w.Opts.Interceptors = nil // CheckSyntax agreement is only demanded without interceptors
 	}
+	w.Opts.CORS = pick(r, []string{"", "", "any", "list", "cred", "deny"})
 	w.Pool = genPoolCfg(r)
 	pool := GenPool(r, r.Range(3, 12), w.Opts.Interceptors)
 	var pats []*Pattern
